@@ -2,36 +2,22 @@
 import json, os
 ROOT = os.path.dirname(os.path.dirname(os.path.abspath(__file__)))
 
-BASE_NOTE = ("Trusted: Coq 8.16.1 kernel + vm_compute (no native_compute); no axioms declared (Print Assumptions recorded in evidence); "
-             "translator tools/gotables and the reflective probes that regenerate coq/theories/Gen/*.v on every run; "
-             "the Go correspondence harness and lib/*.py. ")
+import glob, importlib, sys
+sys.path.insert(0, os.path.join(ROOT, "lib"))
 
-CHECKS = {
- "C14": dict(
-    technique="Coq proof over a generic traversal model + Children() table regenerated by reflective probe each run (instance lemma by vm_compute) + model-vs-ast.Inspect correspondence on reflected real trees",
-    text=("Theorems walk_complete_except / walk_sound / inspect_prune / walk_linear are proved for every reflected tree (no size bound) over a model of "
-          "ast.Walk parameterised by the table of which node-holding access paths each Children() method returns. That table is re-derived from the "
-          "compiled code on every run for every node type x every node-holding path, and the decidable hypothesis (every path emitted or listed as a known finding) "
-          "is discharged by complete evaluation. The model instantiated with the table is compared with the real ast.Inspect on reflected trees of parsed corpus and "
-          "generated statements; an implementation-side oracle compares Inspect with reflect-reachability."),
-    note=BASE_NOTE + "Assumes reflect-reachability through exported fields defines 'part of the tree' and that Children() is field-wise uniform (checked by the correspondence).",
-    design="6/C14"),
- "C09": dict(
-    technique="Coq proof over a generic pool model (all put/get/GC histories) + per-field release table regenerated by reflective probe each run + real-pool history exploration and hold/release snapshot histories",
-    text=("Theorem get_is_fresh_except: for every history of releases of arbitrary dirty objects through any release path, Gets and garbage collections, every object a pool hands out is "
-          "fresh on every field (no size bound), given the per-(path, type, field) reset table, which is re-derived from the compiled code on every run by populating every field of every pooled type, "
-          "releasing and re-obtaining it; the table hypothesis is discharged by complete evaluation. The ownership clause is explored by parse/hold/release/pool-churn/tokenizer-reuse histories with deep snapshots (exploration, not proof)."),
-    note=BASE_NOTE + "sync.Pool modelled as nondeterministic choice among pooled objects or a new one; ownership/aliasing clause is exploration-level.",
-    design="6/C09"),
- "C02": dict(
-    technique="Coq proof that every realizable call stack is bounded (generic theorem over the static call graph + guard set regenerated from SSA each run, instance by vm_compute) + nesting drivers and limit boundaries on the implementation",
-    text=("Theorem stack_depth_bounded: for every path in the parser's static call graph on which depth-guard frames have callees only while the counter is within the limit, the number of frames is at most "
-          "(MaxRecursionDepth+2)*(max rank+1), independent of the input; proved generically and instantiated on the call graph, guard set (increment + deferred decrement + dominating limit check recognised on SSA) and rank witness "
-          "regenerated from the current source, the acyclicity hypothesis discharged by complete evaluation. 45+ self-embedding productions are driven to depths around the limit and far beyond in a child process on a reused and a fresh parser "
-          "(depth-counter leaks, history dependence, crashes); size and token limits are checked exactly at and one past their boundaries through each entry point."),
-    note=BASE_NOTE + "Static call graph complete for direct calls (dynamic call sites listed in evidence); frame sizes are the compiler's; size/token-limit clauses are exploration-level until the tokenizer loop model lands.",
-    design="6/C02"),
-}
+
+def load_checks():
+    """every lib/cNN.py that defines MANIFEST = dict(technique, text, note, design[, level]) is a claimed check"""
+    out = {}
+    for f in sorted(glob.glob(os.path.join(ROOT, "lib", "c[0-9][0-9].py"))):
+        name = os.path.basename(f)[:-3]
+        mod = importlib.import_module(name)
+        if getattr(mod, "MANIFEST", None):
+            out[name.upper()] = mod.MANIFEST
+    return out
+
+
+CHECKS = load_checks()
 
 NOT_YET = {}
 
@@ -50,7 +36,7 @@ def main():
                 "evidence_file": "evidence/%s.json" % pid,
                 "replay_cmd_template": "bin/check %s --replay {path}" % pid,
                 "engine": "coq-gv",
-                "level_claimed": {"category": "proof", "text": c["text"], "design_ref": c["design"]},
+                "level_claimed": {"category": c.get("level", "proof"), "text": c["text"], "design_ref": c["design"]},
                 "level_note": c["note"],
                 "technique": c["technique"],
             })
